@@ -45,6 +45,7 @@ def run(ctx):
         raise tlc.TLCError("generator failed:\n" + r.stdout[-3000:])
     bad = {}
     classes = set()
+    ncase = 0
     for c in r.printed:
         a, n, v, rr, d = c["a"], c["n"], c["v"], c["r"], c["d"]
         N = n[0] ** 2 + n[1] ** 2 + n[2] ** 2
@@ -68,6 +69,28 @@ def run(ctx):
             key = f"rodrigues:axis{sign_class(n)}"
             if key not in bad:
                 bad[key] = {"theta": theta, "axis": n, "vec": v, "expected": [x / d for x in rr], "got": got}
+        # the rotation is linear in the vector and does not depend on the length of the axis: the same exact result,
+        # scaled, for short / long axes and vectors and for vectors almost parallel to the axis (R n = n)
+        ncase += 1
+        if any(cross) and ncase % 11 == ctx.seed % 11:
+            exact = [x / d for x in rr]
+            for sa, sv, par in ((1e-4, 1.0, 0.0), (1e3, 1e-4, 0.0), (1.0, 1e4, 0.0), (1.0, 1e-3, 1.0), (0.5, 1e-5, 2.0)):
+                vv = [par * n[i] + sv * v[i] for i in range(3)]
+                want = [par * n[i] + sv * exact[i] for i in range(3)]
+                ctx.count()
+                try:
+                    o2 = rotate_vector_around_an_axis(theta, Vector(sa * n[0], sa * n[1], sa * n[2]), Vector(*vv))
+                    g2 = (o2.x, o2.y, o2.z)
+                    e2 = max(abs(g2[i] - want[i]) for i in range(3))
+                except Exception as ex:  # noqa
+                    g2, e2 = repr(ex), 1.0
+                mag = max(1e-300, max(abs(x) for x in want))
+                perp = sv * max(abs(x) for x in v)
+                if e2 > 1e-9 * max(mag, perp) and e2 > 1e-7 * perp:
+                    kind = "near-parallel" if par else ("short-axis" if sa < 1e-2 else "scaled-vector")
+                    key = f"rodrigues-scale:{kind}"
+                    if key not in bad:
+                        bad[key] = {"theta": theta, "axis": [sa * c0 for c0 in n], "vec": vv, "expected": want, "got": g2}
     ctx.traces += 1
     ctx.extra["sign_classes_of_axes"] = len({c[0] for c in classes})
     ctx.extra["angle_axis_classes"] = len(classes)
